@@ -24,13 +24,16 @@ ASSUMPTIONS = ["PARTIAL by nature: the loop model is proved to refine the snapsh
                "ppoll that finds no ready descriptor, and that ppoll then fails with EINTR; ppoll writes revents for every slot",
                "a signal watch is not cancelled while its signal is pending in the kernel (the last cancel restores the default action)",
                "a callback watching signal S does not register a further watch of S (hypothesis act_ok of C18_refines); registered descriptors are >= 0",
-               "two loops are exercised: the default ppoll-based one (Linux) and a minimal poll loop without ->signal hook (self-pipe fallback)", "malloc does not fail"]
+               "two loops are exercised: the default ppoll-based one (Linux) and a minimal poll loop without ->signal hook (self-pipe fallback)", "malloc does not fail",
+               "tickit_run is entered through the script op u<k>: the harness calls tickit_stop from inside the k-th ppoll of the run at the latest; "
+               "the SIGINT watch tickit_run keeps for its duration is not modelled (no script uses signal 2); tickit_run / tickit_tick are not re-entered from callbacks"]
 TRUSTED = ["model coq/LoopPipeDefs.v of the self-pipe fallback (pipe as a byte counter) and the checker coq/LoopPipeSpec.v (obligation per raise and watcher)",
            "model coq/LoopSigDefs.v hand-written after src/evloop-default.c and src/tickit.c (with fixes/C18-*.patch applied); "
            "specification coq/LoopSigSpec.v (snapshot semantics, no errno, no revents table; model proved to refine it in coq/LoopSigRefine.v)",
            "harness/loopharness.h: link-time replacement of ppoll that plays the kernel (real signals, real handler, scripted outcome)"]
 
 SIGS = [10, 12, 14]
+HISIGS = [29, 30, 31]      # above SIGWINCH (28), which tickit_build always watches
 ERRNOS = [0, 11, 4, 2]
 
 
@@ -64,6 +67,32 @@ def gen(tier, seed, info):
                                 "callback bodies) x 6 IO configurations x 8 arrival patterns, then three NOHANG iterations "
                                 "(quick: about half of the combinations that have both IO and an arrival)")
     info["exhaustive_cases"] = n
+    # ---- tickit_stop from callbacks, tickit_run (u<k>) and tickit_tick: whatever a deferred / IO /
+    #      signal callback does to the loop's run flag, the iteration still owes the signal dispatch
+    nst = 0
+    for w in ["ws10:0:2", "ws10:0:2 ws10:2:4", "ws10:0:2 ws12:0:4"]:
+        for c1 in ["s", "s,e0", "e4,s", "s,k12", "-"]:
+            for lt in ["l0:1", "l0:3 l0:1", "l0:1 l0:3", "wi0:1:0:1 R0:1"]:
+                for a in ["K10", "k10", "K10 K12", "k10 K12", ""]:
+                    for mode in ["r0 r0 r0", "o r0 r0", "u3 r0 r0", "u1 r0 r0", "u2 u2 r0", "u4 k10 r0"]:
+                        for c2 in ["-", "s", "l0:3"]:
+                            nst += 1
+                            yield "cb1=%s cb2=%s cb3=e0 cb4=- %s %s %s %s" % (c1, c2, w, lt, a, mode)
+    info["stop_run_cases"] = nst
+    # ---- signal numbers above SIGWINCH and histories that free a signums[] slot first (a cancelled
+    #      watch, or tickit_run's own SIGINT watch), so that the new watch REUSES a slot
+    nhi = 0
+    for (pre, nid) in [("", 0), ("ws10:0:1 c0", 1), ("ws12:0:1 c0", 1), ("u1", 0), ("ws10:0:1 ws12:0:1 c0", 2),
+                       ("ws10:0:1 ws12:0:1 c1 c0", 2), ("ws10:0:1 u1 c0", 1), ("l0:1 u2", 1)]:
+        for sg in HISIGS + [12]:
+            for second in ["", "ws%d:2:3" % sg, "ws10:0:3"]:
+                for a in ["k%d" % sg, "K%d" % sg, "k%d K10" % sg, "K%d k%d" % (sg, sg)]:
+                    for mode in ["r0 r0", "u2 r0", "o r0"]:
+                        for c2 in ["-", "c%d" % nid, "k%d" % sg]:
+                            nhi += 1
+                            yield "cb1=- cb2=%s cb3=- %s ws%d:0:2 %s %s %s" % (c2, pre, sg, second, a, mode)
+    info["high_signal_cases"] = nhi
+    n += nst + nhi
     # ---- the self-pipe fallback (custom event loop without a ->signal hook): signals are not
     #      blocked, the handler runs at once; arrival points: before an iteration, from a deferred
     #      callback, from inside a signal callback of the running dispatch (other / same signal),
@@ -141,7 +170,9 @@ def gen(tier, seed, info):
         if r < 0.84:
             return "k%d" % rnd.choice(SIGS)
         if r < 0.92 and not for_sig:
-            return "ws%d:%d:%d" % (rnd.choice(SIGS), rnd.choice([0, 2]), sigcb(target()))
+            return "ws%d:%d:%d" % (rnd.choice(SIGS + HISIGS), rnd.choice([0, 2]), sigcb(target()))
+        if r < 0.96:
+            return "s"
         return "-"
 
     for _ in range(nrand):
@@ -162,21 +193,23 @@ def gen(tier, seed, info):
         for _ in range(nops):
             r = rnd.random()
             if r < 0.2:
-                toks.append("ws%d:%d:%d" % (rnd.choice(SIGS), rnd.choice([0, 2]), sigcb(rnd.randrange(ncb + 1))))
+                toks.append("ws%d:%d:%d" % (rnd.choice(SIGS + HISIGS), rnd.choice([0, 2]), sigcb(rnd.randrange(ncb + 1))))
             elif r < 0.35:
                 toks.append("wi%d:%d:%d:%d" % (rnd.randrange(4), rnd.choice([1, 2, 3, 5]), rnd.choice([0, 2]), rnd.randrange(ncb + 1)))
             elif r < 0.45:
                 toks.append("l%d:%d" % (rnd.choice([0, 2]), rnd.randrange(ncb + 1)))
             elif r < 0.55:
-                toks.append("k%d" % rnd.choice(SIGS)); kind.append("k")
+                toks.append("k%d" % rnd.choice(SIGS + HISIGS)); kind.append("k")
             elif r < 0.62:
-                toks.append("K%d" % rnd.choice(SIGS)); kind.append("K")
+                toks.append("K%d" % rnd.choice(SIGS + HISIGS)); kind.append("K")
             elif r < 0.72:
                 toks.append("R%d:%d" % (rnd.randrange(4), rnd.choice([1, 4, 5, 8, 16, 17, 32, 2, 63]))); kind.append("R")
             elif r < 0.78:
                 toks.append("c%d" % rnd.randrange(maxid))
-            elif r < 0.96:
+            elif r < 0.93:
                 toks.append("r0")
+            elif r < 0.96:
+                toks.append("u%d" % rnd.randint(1, 3)); kind.append("u")
             else:
                 toks.append("o")
         toks += ["r0", "r0"]
@@ -208,7 +241,7 @@ def classify(case, obs):
     if not fired:
         return None
     toks = case.split()
-    arrive = tuple(sorted(set(t[0] for t in toks if t[0] in "kKRBF" and not t.startswith("cb"))))
+    arrive = tuple(sorted(set(t[0] for t in toks if t[0] in "kKRBFu" and not t.startswith("cb"))))
     if toks and toks[0] == "F":
         # which callbacks raise signals (arrival during dispatch / from a deferred callback)
         arrive += tuple(sorted(set("cbk" for t in toks if t.startswith("cb") and "k" in t.split("=", 1)[1])))
